@@ -191,7 +191,7 @@ def decide_engine(pid, spec, tier, seed, theorems, t0):
         # search for a failing input with the diverging stratum boosted
         d = hits[0]
         boost = fw.correspondence(seed + 7919, max(count * 10, 2000), spec['monitors'],
-                                  variant=d['meta'].get('variant') if d['meta'].get('variant') != 'custom' else None,
+                                  variant=d['meta'].get('variant') if d['meta'].get('variant') in __import__('gen').VARIANTS else None,
                                   tag=pid + 'b',
                                   directed={d['meta']['director']: 0.5} if d['meta'].get('director') else None)
         searched = boost['cases']
@@ -486,6 +486,14 @@ def replay_eval(pid, d):
     except Exception as e:  # noqa: BLE001
         hs = None
         err = e
+    from pokerkit import Card
+    if any(not all(Card.parse(c)) for c in inp[1:] if c != '='):
+        if hs is not None:
+            print(f'reproduced: property=C04 {tn}{inp[1:]}: accepted although it contains a card that is not a '
+                  f'real card (unknown rank or suit)')
+            return 1
+        print('not reproduced on the current tree')
+        return 0
     keys = [pyspec.hand_key(tn, c) for c in inp[1:]]
     if hs is None:
         if all(k is not None for k in keys):
